@@ -409,7 +409,7 @@ def run_case(case):
 
 
 def gen_cases(tier, seed):
-    n = 140 if tier == "quick" else 3000
+    n = 140 if tier == "quick" else 12000
     out = []
     for i in range(n):
         rng = rng_for(seed, "c14-gen", i)
